@@ -304,6 +304,17 @@ def client_methods(text: str) -> dict:
     return out
 
 
+def k1v(run, what, rep, found_input=False):
+    """A model<->code (K1) disagreement.  VERIF_K3_ONLY=1 (development aid used to evaluate a proposed fix of /repo
+    by the direct property oracle alone, before the model is updated) only counts it."""
+    import os
+
+    if os.environ.get("VERIF_K3_ONLY"):
+        run.dist("k1_suppressed", "count")
+        return
+    run.violation(what, rep, found_input=found_input)
+
+
 def ops_of(doc):
     return [d for d in doc.definitions if isinstance(d, OperationDefinitionNode)]
 
